@@ -72,15 +72,47 @@ class Link:
         self.policy = None      # optional: callable(frame data) -> attempt, instead of the script
         self.raise_at = None    # optional: raise LinkError at the n-th send_packet counted from nsend = 0
         self.nsend = 0
+        self.deferred = False   # reference-keeping link: see send_packet
+        self.slot = None
+        self.offered = []
+        self.offered_is_load = []
 
     def send_packet(self, pk):
-        hdr = pk.header
-        d = bytes(pk.data)
+        """Immediate mode: the packet is serialised (header and data read) here.  Deferred mode (`deferred = True`), like
+        cflib.crtp.radiodriver: the packet OBJECT goes into a one-slot out-queue; the radio takes it — reads pk.header and
+        pk.data — only when the next packet is offered or when the client starts to receive (or at drain())."""
         if len(self.sent) >= self.MAX_FRAMES:
             raise HarnessAbort('too many frames')
         self.nsend += 1
         if self.raise_at is not None and self.nsend == self.raise_at:
             raise LinkError('link failed at frame %d' % self.nsend)
+        self.offered.append(pk)                      # kept alive: id() values stay comparable
+        try:
+            dd = pk.data
+            self.offered_is_load.append(len(dd) >= 2 and dd[1] == 0x14)
+        except Exception:
+            self.offered_is_load.append(False)
+        if self.deferred:
+            if self.slot is not None:
+                old, self.slot = self.slot, None
+                self._transmit(old)
+            self.slot = pk
+        else:
+            self._transmit(pk)
+
+    def drain(self):
+        if self.slot is not None:
+            old, self.slot = self.slot, None
+            self._transmit(old)
+
+    def distinct_load_objects(self):
+        """True iff no packet object was offered twice among the buffer-load packets (aliasing-freedom of the client)"""
+        ids = [id(p) for p, isl in zip(self.offered, self.offered_is_load) if isl]
+        return len(ids) == len(set(ids))
+
+    def _transmit(self, pk):
+        hdr = pk.header
+        d = bytes(pk.data)
         if hdr == 0xFF and len(d) >= 2 and d[1] == 0x18:
             self.consec_writes += 1
             if self.consec_writes > 64:
@@ -101,6 +133,7 @@ class Link:
                 t.recv(hdr, d)
 
     def receive_packet(self, wait=0):
+        self.drain()            # the radio has certainly taken the queued packet before anything can be answered
         self.recv_calls.append(wait)
         if len(self.recv_calls) > 4 * self.MAX_FRAMES:
             raise HarnessAbort('receive loop does not end')
